@@ -154,21 +154,7 @@ func (in *sinst) apply(o sop) (bool, string, string) {
 		in.set.IncrementAccum(1)
 		in.m.step()
 		if got := snapSet(in.set); got != in.m.String() {
-			key := keyStepAccum
-			if rotState(in.set).prop != modelState(in.m).prop {
-				key = keyStepProp
-				for i := range before.v {
-					before.v[i].a, _ = addClip(before.v[i].a, before.v[i].p)
-				}
-				top := before.argmax()
-				for i := range before.v {
-					if i != top && before.v[i].a == before.v[top].a {
-						key = keyStepTie
-					}
-				}
-			} else if in.m.clipped {
-				key = keyStepWrap
-			}
+			key := classifyStep(before, rotState(in.set))
 			return true, key, fmt.Sprintf("IncrementAccum(1): real %s, reference %s", got, in.m.String())
 		}
 	case sGetProposer:
